@@ -40,7 +40,9 @@ def encode_event(e, d="out"):
         return {"e": k, "ok": e["ok"], "b": e["b"], "active": e["active"], "jobs": e["jobs"], "hb": e["hb"],
                 "rows": e["rows"], "opts": opts, "run": run}
     if k == "hpc":
-        return {"e": k, "what": e["what"], "b": e["b"], "active": e["active"]}
+        return {"e": k, "what": ("walltime" if e.get("spin") else e["what"]), "b": e["b"], "active": e["active"]}
+    if k == "kill" and e.get("why") == "node timeout" and e.get("spin"):
+        return None
     if k == "launch":
         return {"e": k, "job": e["job"], "b": e["b"], "rows": e["rows"], "live": e["live"], "pid": e["pid"]}
     if k == "jobexit":
@@ -68,8 +70,8 @@ def encode_event(e, d="out"):
         return {"e": k, "which": e["which"], "b": (-1 if e["which"] in ("setup", "teardown") else e["b"]), "envok": e["envok"], "grp": e["grp"], "rows": e["rows"], "live": e["live"],
                 "pid": e["pid"], "rc": e["rc"]}
     if k == "cop":
-        return {x: e[x] for x in ("e", "pid", "op", "hcver", "hjver", "dcver", "djver", "exc", "changed", "wcfg", "wjs", "ok",
-                                  "before", "host", "loaded")}
+        return {x: e[x] for x in ("e", "pid", "op", "hcver", "hjver", "dcver", "djver", "ddcver", "ddjver", "exc", "changed",
+                                  "wcfg", "wjs", "ok", "before", "host", "loaded")}
     if k == "kill":
         # a node that disappears takes its runner (and a nested command that is not acting as submitter) with it: that is
         # C12's "node killed"; a killed process that holds (or may hold) the submitter role is C11's fault
@@ -78,6 +80,8 @@ def encode_event(e, d="out"):
             return {"e": "nodekill", "pid": e["pid"]}
         return {"e": "kill", "pid": e["pid"]}
     if k == "fault":
+        if e.get("kind") == "squeue-empty":
+            return {"e": "sqlie", "pid": e["pid"]}
         return {"e": "fault", "pid": e["pid"]}
     if k == "marker":
         return {"e": "marker", "on": e["on"], "pid": e["pid"]}
